@@ -195,6 +195,16 @@ func (w *World) Deny(fn *ssa.Function) bool {
 	return true
 }
 
+// ReaderIfaceType is a concrete dynamic type for engine-made io.Reader values (*bytes.Reader).
+func (w *World) ReaderIfaceType() types.Type {
+	if p := w.Pkgs["bytes"]; p != nil {
+		if t := p.Type("Reader"); t != nil {
+			return types.NewPointer(t.Type())
+		}
+	}
+	return nil
+}
+
 // FuncInfo describes an encoded function for the evidence file.
 type FuncInfo struct {
 	Fn     string `json:"fn"`
